@@ -12,7 +12,7 @@ def run(chk):
                 'level reports something other than NCD; distinct by scene digest')
     tablecheck.run_tables(chk, PROP, n)
     # end to end as well (crop-heavy: the high-cloud flag and the message depend on what construction cropped)
-    pipecheck.run_pipeline(chk, PROP, n // 2, families=(('crop', 0.4), ('synth', 0.3), ('multi', 0.15), ('exact', 0.15), ('interleave', 0.1)))
+    pipecheck.run_pipeline(chk, PROP, n // 2, families=(('crop', 0.4), ('synth', 0.3), ('multi', 0.15), ('exact', 0.15), ('interleave', 0.1), ('owned', 0.15), ('chain', 0.1)))
     return None
 
 
